@@ -41,6 +41,10 @@ pub struct Ctx {
     pub obs_hash: u64,
     /// number of mixed-size accesses seen (informational)
     pub sizes_seen: [u64; 9],
+    /// hooked operations since the current call started (step budget of `catch_call`)
+    pub call_steps: u64,
+    /// 0 = no budget
+    pub call_budget: u64,
 }
 
 impl Ctx {
@@ -55,6 +59,8 @@ impl Ctx {
             on_write: None,
             obs_hash: 0,
             sizes_seen: [0; 9],
+            call_steps: 0,
+            call_budget: 0,
         }
     }
 }
@@ -95,12 +101,24 @@ fn is_write(kind: Kind) -> bool {
     !matches!(kind, Kind::Load)
 }
 
+/// Step budget of a single sequential call of the subject (hooked atomic operations)
+pub const CALL_BUDGET: u64 = 2_000_000;
+
 fn hook_point(kind: Kind, addr: usize, size: usize) {
     let ev = Event { kind, addr, size };
     let mut yield_now = false;
+    let mut over = false;
     CTX.with(|c| {
         let mut b = c.borrow_mut();
         let Some(ctx) = b.as_mut() else { return };
+        if ctx.call_budget != 0 {
+            ctx.call_steps += 1;
+            if ctx.call_steps > ctx.call_budget {
+                ctx.call_steps = 0;
+                over = true;
+                return;
+            }
+        }
         if ctx.mode == Mode::Off {
             return;
         }
@@ -128,9 +146,44 @@ fn hook_point(kind: Kind, addr: usize, size: usize) {
             yield_now = true;
         }
     });
+    if over {
+        panic!("call exceeded its step budget (does not terminate when running alone)");
+    }
     if yield_now {
         crate::ilv::yield_point(ev);
     }
+}
+
+/// Start a budgeted call: returns true if a temporary context was installed
+pub fn begin_call() -> bool {
+    CTX.with(|c| {
+        let mut b = c.borrow_mut();
+        match b.as_mut() {
+            Some(ctx) => {
+                if ctx.mode != Mode::Sched {
+                    ctx.call_steps = 0;
+                    ctx.call_budget = CALL_BUDGET;
+                }
+                false
+            }
+            None => {
+                let mut ctx = Ctx::new(Mode::Off);
+                ctx.call_budget = CALL_BUDGET;
+                *b = Some(ctx);
+                true
+            }
+        }
+    })
+}
+pub fn end_call(temporary: bool) {
+    CTX.with(|c| {
+        let mut b = c.borrow_mut();
+        if temporary {
+            *b = None;
+        } else if let Some(ctx) = b.as_mut() {
+            ctx.call_budget = 0;
+        }
+    });
 }
 
 fn hook_observed(kind: Kind, addr: usize, _size: usize, value: u64, wrote: bool) {
